@@ -578,11 +578,24 @@ func runFixed(seed int64, from, to int, brute bool) {
 
 // ---- zones ----
 type ztab struct {
-	name  string
-	loc   *time.Location
-	off0  int
-	trans []int64 // instants
-	offs  []int
+	name   string
+	loc    *time.Location
+	off0   int
+	trans  []int64 // instants
+	offs   []int
+	deltas []int64 // distinct sizes of fall-backs (offset decreases) of this location
+}
+
+// isRepeat: some earlier instant shows the same wall clock reading as t (t is the later occurrence of a
+// local time repeated by a fall-back). An earlier occurrence lies exactly one fall-back size before t.
+func (z *ztab) isRepeat(t int64) bool {
+	k := wallKey(time.Unix(t, 0).In(z.loc))
+	for _, d := range z.deltas {
+		if wallKey(time.Unix(t-d, 0).In(z.loc)) == k {
+			return true
+		}
+	}
+	return false
 }
 
 func buildZone(name string) (*ztab, error) {
@@ -605,6 +618,19 @@ func buildZone(name string) (*ztab, error) {
 			continue
 		}
 		_, o := end.Zone()
+		before := z.off0
+		if len(z.offs) > 0 {
+			before = z.offs[len(z.offs)-1]
+		}
+		if d := int64(before - o); d > 0 {
+			known := false
+			for _, x := range z.deltas {
+				known = known || x == d
+			}
+			if !known {
+				z.deltas = append(z.deltas, d)
+			}
+		}
 		z.trans = append(z.trans, end.Unix())
 		z.offs = append(z.offs, o)
 		t = end
@@ -629,7 +655,8 @@ func wallKey(t time.Time) int64 {
 
 // zoneOracle scans second by second: the implementation's answer `got` (0 = expired) must read a matching
 // wall clock, and every matching instant it skipped must be the later occurrence of a repeated local time.
-func zoneOracle(e *expr, loc *time.Location, prevSec int64, res string, horizon int64) string {
+func zoneOracle(e *expr, z *ztab, prevSec int64, res string, horizon int64) string {
+	loc := z.loc
 	var got int64 = -1
 	if strings.HasPrefix(res, "F") {
 		var ns int64
@@ -651,21 +678,13 @@ func zoneOracle(e *expr, loc *time.Location, prevSec int64, res string, horizon 
 	if got >= 0 && got < end {
 		end = got
 	}
-	seen := map[int64]bool{}
-	// wall clock readings seen in the two hours before prev (first pass of a repeated hour)
-	for t := prevSec - 2*3600 - 1800; t <= prevSec; t++ {
-		seen[wallKey(time.Unix(t, 0).In(loc))] = true
-	}
 	for t := prevSec + 1; t < end; t++ {
-		tt := time.Unix(t, 0).In(loc)
-		k := wallKey(tt)
-		if e.matches(tt) && !seen[k] {
+		if e.matches(time.Unix(t, 0).In(loc)) && !z.isRepeat(t) {
 			if got < 0 {
 				return fmt.Sprintf("false-expiry: %d matches", t)
 			}
 			return fmt.Sprintf("skipped-non-repeated: %d matches before %d", t, got)
 		}
-		seen[k] = true
 	}
 	return "ok"
 }
@@ -754,7 +773,7 @@ func runZone(seed int64, from, to int, names []string) {
 			id := fmt.Sprintf("%d.%d", i, c)
 			res := fire(tr, pns, fmt.Sprintf("%s\t%s\t%d", ex, z.name, pns))
 			horizon := int64(3 * 86400)
-			oracle := zoneOracle(e, z.loc, pns/1000000000, res, horizon)
+			oracle := zoneOracle(e, z, pns/1000000000, res, horizon)
 			if res == "E" && oracle == "ok" {
 				oracle = "ok-expired-within-horizon"
 			}
@@ -890,11 +909,42 @@ func runPure(seed int64, n int) {
 	fmt.Fprintf(out, "S\tpure\ttriggers=%d\tcalls=%d\tbad=%d\n", n, total, bad)
 }
 
+// exprFromFields rebuilds the harness's own expression form from the parsed fields (for replays).
+func exprFromFields(f quartz.VerifFields) *expr {
+	set := func(v []int) []int {
+		if len(v) == 0 {
+			return nil
+		}
+		return v
+	}
+	e := &expr{sec: set(f.Values[0]), min: set(f.Values[1]), hour: set(f.Values[2]), month: set(f.Values[4]), year: set(f.Values[6])}
+	switch {
+	case len(f.Values[5]) > 0 && f.N[5] == 0:
+		e.day = dayRule{kind: 6, set: f.Values[5]}
+	case len(f.Values[5]) > 0 && f.N[5] < 0:
+		e.day = dayRule{kind: 7, n: f.Values[5][0]}
+	case len(f.Values[5]) > 0:
+		e.day = dayRule{kind: 8, n: f.Values[5][0], k: f.N[5]}
+	case f.N[3] == 1:
+		e.day = dayRule{kind: 2}
+	case f.N[3] < 0:
+		e.day = dayRule{kind: 3, n: -f.N[3]}
+	case f.N[3] == 3:
+		e.day = dayRule{kind: 5}
+	case f.N[3] == 2:
+		e.day = dayRule{kind: 4, n: f.Values[3][0]}
+	case len(f.Values[3]) > 0:
+		e.day = dayRule{kind: 1, set: f.Values[3]}
+	}
+	return e
+}
+
 // runOne replays a single recorded case (and a chain of three from it).
 func runOne(ex, locName string, prev int64) {
 	loc := time.UTC
 	zid := "utc"
 	var off int
+	var zt *ztab
 	if n, _ := fmt.Sscanf(locName, "fx%d", &off); n == 1 {
 		loc = time.FixedZone(locName, off)
 		zid = locName
@@ -907,6 +957,7 @@ func runOne(ex, locName string, prev int64) {
 		}
 		loc = z.loc
 		zid = z.name
+		zt = z
 		fmt.Fprintln(out, z.line())
 	} else {
 		fmt.Fprintf(out, "Z\tutc\t0\n")
@@ -919,7 +970,11 @@ func runOne(ex, locName string, prev int64) {
 	ftoks := fieldTokens(quartz.VerifTriggerFields(tr))
 	for c := 0; c < 3; c++ {
 		res := fire(tr, prev, fmt.Sprintf("%s\t%s\t%d", ex, locName, prev))
-		emitCase(fmt.Sprintf("0.%d", c), zid, prev, res, ftoks, ex, locName, "replay", "-")
+		oracle := "-"
+		if zt != nil {
+			oracle = zoneOracle(exprFromFields(quartz.VerifTriggerFields(tr)), zt, prev/1000000000, res, 3*86400)
+		}
+		emitCase(fmt.Sprintf("0.%d", c), zid, prev, res, ftoks, ex, locName, "replay", oracle)
 		if !strings.HasPrefix(res, "F") {
 			break
 		}
